@@ -56,6 +56,20 @@ func TestProbe(t *testing.T) {
 			watch = append(watch, s.head[1])
 		}
 	}
+	{
+		sub := map[string]string{}
+		for _, u := range []string{"alice", "mallory", "bob"} {
+			sub["$"+u+"$"] = chainsim.NewAccount(u).Addr.String()
+		}
+		for _, p := range w.Pkgs {
+			sub["$"+p.Path+"$"] = hist.RealmAddr(p.Path).String()
+		}
+		for i := range w.Pkgs {
+			for k, v := range sub {
+				w.Pkgs[i].Body = strings.ReplaceAll(w.Pkgs[i].Body, k, v)
+			}
+		}
+	}
 	ch, err := Start(w, []string{"alice", "mallory", "bob"}, extra)
 	if err != nil {
 		t.Fatal(err)
